@@ -295,6 +295,30 @@ fn dist_with(slot: usize, x: f64) -> Dist {
     Dist::new(dt, 0.0, 0.0)
 }
 
+/// Two (for SkewNormal: two of three) parameters adversarial at once: some judgements depend on a
+/// relation between parameters (low <= high, finite range) and fail only for a pair, e.g. both bounds
+/// the same infinity.
+pub const PAIR_SLOTS: usize = 12;
+
+fn dist_with_pair(slot: usize, x: f64, y: f64) -> Dist {
+    let u = x.max(0.0).min(2.0e9) as u64;
+    let dt = match slot {
+        0 => DistType::Uniform { low: x, high: y },
+        1 => DistType::Normal { mean: x, stdev: y },
+        2 => DistType::SkewNormal { location: x, scale: y, shape: 1.0 },
+        3 => DistType::SkewNormal { location: 1.0, scale: x, shape: y },
+        4 => DistType::SkewNormal { location: x, scale: 1.0, shape: y },
+        5 => DistType::LogNormal { mu: x, sigma: y },
+        6 => DistType::Binomial { trials: u, probability: y },
+        7 => DistType::Pareto { scale: x, shape: y },
+        8 => DistType::Weibull { scale: x, shape: y },
+        9 => DistType::Gamma { scale: x, shape: y },
+        10 => DistType::Beta { alpha: x, beta: y },
+        _ => return Dist::new(DistType::Uniform { low: 1.0, high: 2.0 }, x, y),
+    };
+    Dist::new(dt, 0.0, 0.0)
+}
+
 /// where the adversarial distribution is placed: every position of a distribution in a state, alone
 /// and next to valid siblings
 pub const PLACES: usize = 13;
@@ -367,6 +391,17 @@ fn matrix() -> Vec<Candidate> {
                     let plain = (None, (None, None), vec![(Event::NormalSent, vec![Trans(1, 1.0)])]);
                     let (mm, m) = mirror_of(0.5, 0.5, vec![plain.clone(), plain, (a, c, vec![(Event::NormalRecv, vec![Trans(0, 1.0)])])]);
                     v.push(Candidate { desc: format!("dist slot {slot} placement {place} in state 2 of 3, value {x:e}"), mirror: mm, machine: Some(m) });
+                }
+            }
+        }
+    }
+    for slot in 0..PAIR_SLOTS {
+        for place in [0usize, 4, 7] {
+            for x in &s64 {
+                for y in &s64 {
+                    let (a, c) = place_dist(place, dist_with_pair(slot, *x, *y));
+                    let (mm, m) = mirror_of(0.5, 0.5, vec![(a, c, vec![(Event::NormalSent, vec![Trans(0, 1.0)])])]);
+                    v.push(Candidate { desc: format!("dist pair slot {slot} placement {place} values {x:e}, {y:e}"), mirror: mm, machine: Some(m) });
                 }
             }
         }
@@ -519,7 +554,13 @@ fn random_candidate(r: &mut Xo) -> Candidate {
     for _ in 0..n {
         let slot = r.below(27) as usize;
         let x = if r.chance(1, 2) { rand_special(r) } else { 1.0 + r.unit_f64() };
-        let (a, c) = place_dist(r.below(PLACES as u64) as usize, dist_with(slot, x));
+        let d = if r.chance(1, 3) {
+            let y = if r.chance(2, 3) { rand_special(r) } else { 1.0 + r.unit_f64() };
+            dist_with_pair(r.below(PAIR_SLOTS as u64) as usize, x, y)
+        } else {
+            dist_with(slot, x)
+        };
+        let (a, c) = place_dist(r.below(PLACES as u64) as usize, d);
         let mut tv = vec![];
         for _ in 0..r.range(0, 3) {
             let e = *r.pick(&ALL_EVENTS);
@@ -575,7 +616,7 @@ impl Prop for C12 {
             out.extra.insert("matrix_exhaustive".into(), json!(true));
             out.extra.insert(
                 "matrix".into(),
-                json!({"numeric_slots": 29 + 3, "special_values_f64": specials64().len(), "special_values_f32": specials32().len(),
+                json!({"numeric_slots": 29 + 3, "parameter_pair_slots": PAIR_SLOTS, "pair_placements": 3, "special_values_f64": specials64().len(), "special_values_f32": specials32().len(),
                        "placements": PLACES, "objects": m.len(), "paths": ["Machine::validate", "Machine::new", "Framework::new (alone and in 4 line-ups with valid companions)", "Machine::from_str(serialize)", "Machine::from_str(bytes)"]}),
             );
         }
